@@ -198,8 +198,12 @@ impl<'a> BlobIngestion<'a> {
         // Acquire locks for version registration on the index tree. We must
         // hold both the compaction state lock and version history lock to
         // safely modify the tree's version.
+        #[cfg(feature = "verif")]
+        crate::verif::probe_mutex(&index.compaction_state, "blob_tree/ingest.rs:compaction_state.lock#31");
         #[expect(clippy::expect_used, reason = "lock is expected to not be poisoned")]
         let mut _compaction_state = index.compaction_state.lock().expect("lock is poisoned");
+        #[cfg(feature = "verif")]
+        crate::verif::probe_write(&index.version_history, "blob_tree/ingest.rs:version_history.write#32");
         #[expect(clippy::expect_used, reason = "lock is expected to not be poisoned")]
         let mut version_lock = index.version_history.write().expect("lock is poisoned");
 
